@@ -219,3 +219,88 @@ Proof.
       * apply H. unfold split_on. rewrite E. apply in_or_app. right. left. reflexivity.
       * exists (front ++ body). rewrite Ef, Hb. apply app_assoc.
 Qed.
+
+(* ---------------------------------------------------------------- statements used by Properties *)
+Lemma sw_noise_discarded s l : sw_idle s = true -> no_lf l ->
+  Forall (fun c => (length (re_split_nonword c) < 2)%nat)
+         (split_on SEMI (filter (fun c => negb (c =? CR)) l)) ->
+  sw_run s (l ++ [LF]) = (s, line_outs l OTrue).
+Proof.
+  intros Hi Hl H. apply lrun_discarded; auto. unfold sw_exec. rewrite sw_cmds_noise by exact H. reflexivity.
+Qed.
+
+Lemma sw_reach_inv s : lreach sw_exec sw_start s -> sw_inv (ldev s).
+Proof. apply (lreach_inv sw_exec sw_inv); [apply sw_exec_inv | apply sw_init_inv]. Qed.
+
+Lemma sw_answered s q : lreach sw_exec sw_start s -> sw_idle s = true -> In q sw_queries ->
+  sw_run s (q ++ [LF]) = (s, line_outs q (OReply (sw_enc (idx (ldev s))))) /\
+  sw_reply_wfb (sw_enc (idx (ldev s))) = true.
+Proof.
+  intros Hr Hi Hq. pose proof (sw_reach_inv s Hr) as Hinv. split.
+  - unfold sw_run. rewrite lrun_line_idle by (auto using sw_queries_no_lf).
+    rewrite sw_query by assumption. cbn [fst snd]. rewrite <- (lidle_msg s Hi). reflexivity.
+  - apply (sw_reply_wf (ldev s) q (ldev s)); [exact Hinv | apply sw_query; assumption].
+Qed.
+
+Lemma sw_answered_after_history bs q : In q sw_queries ->
+  let s := fst (sw_run sw_start (bs ++ [LF])) in
+  snd (sw_run s (q ++ [LF])) = line_outs q (OReply (sw_enc (idx (ldev s)))) /\
+  In (idx (ldev s)) sw_configs.
+Proof.
+  intros Hq s.
+  assert (Hr : lreach sw_exec sw_start s) by (exists (bs ++ [LF]); reflexivity).
+  destruct (sw_answered s q Hr (lresync sw_exec sw_start bs) Hq) as [E _].
+  split; [rewrite E; reflexivity | apply sw_reach_inv; exact Hr].
+Qed.
+
+Lemma sw_step_reply_wf s b s' r : lreach sw_exec sw_start s ->
+  sw_step s b = (s', OReply r) -> sw_reply_wfb r = true /\ b = LF.
+Proof.
+  intros Hr H. unfold sw_step, lstep in H. destruct (b =? LF) eqn:E; [|discriminate].
+  split; [|lia]. injection H as _ H.
+  apply (sw_reply_wf (ldev s) (lmsg s) (fst (sw_exec (ldev s) (lmsg s)))).
+  - apply sw_reach_inv; exact Hr.
+  - rewrite <- H. apply surjective_pairing.
+Qed.
+
+(* the get reply names the configuration it reports: it starts with the decimal index *)
+Lemma sw_enc_echo v : In v sw_configs -> exists nm, sw_table v = Some nm /\ sw_enc v = dec v ++ [58] ++ nm ++ CRLF.
+Proof. intros [<-|[<-|[<-|[<-|[]]]]]; eexists; split; reflexivity. Qed.
+
+Lemma sw_word_token_no_lf tok : word_token tok -> no_lf (sw_write tok).
+Proof.
+  intros [_ Hw] Hin. unfold sw_write in Hin. apply in_app_or in Hin as [Hin|Hin].
+  - revert Hin. vm_compute. intuition discriminate.
+  - cbn [app] in Hin. destruct Hin as [E|Hin]; [discriminate|]. apply in_app_or in Hin as [Hin|Hin].
+    + apply Hw in Hin. discriminate.
+    + cbn in Hin. destruct Hin as [E|[]]. discriminate.
+Qed.
+
+Lemma sw_readback_bytes s tok v ls q : sw_idle s = true -> word_token tok -> py_int tok = Some v ->
+  In v sw_configs -> Forall no_lf ls -> In q sw_queries ->
+  Forall (fun o => o <> OReply (ACK ++ CRLF))
+         (snd (exec_lines sw_exec (fst (sw_exec (ldev s) (sw_write tok))) ls)) ->
+  exists s' mid,
+    sw_run s (lines_bytes (sw_write tok :: ls) ++ q ++ [LF]) =
+      (s', line_outs (sw_write tok) (OReply (ACK ++ CRLF)) ++ mid ++ line_outs q (OReply (sw_enc v))).
+Proof.
+  intros Hi Htok Hint Hv Hls Hq Hna. unfold sw_run.
+  rewrite lrun_history_then_line;
+    [| exact Hi | constructor; [apply sw_word_token_no_lf; exact Htok | exact Hls] | apply sw_queries_no_lf; exact Hq].
+  cbn [exec_lines fst snd].
+  destruct (sw_readback (ldev s) tok v ls q Htok Hint Hv Hna Hq) as [Hack Hrb]. cbn zeta in Hrb.
+  rewrite Hrb. cbn [fst snd]. unfold lines_outs. cbn [combine map concat fst snd]. rewrite Hack.
+  eexists. eexists. rewrite <- app_assoc. reflexivity.
+Qed.
+
+Lemma sw_refused_all_readbacks s l q : sw_idle s = true -> no_lf l -> In q sw_queries ->
+  last (snd (sw_run s (l ++ [LF]))) OFalse <> OReply (ACK ++ CRLF) ->
+  snd (sw_run (fst (sw_run s (l ++ [LF]))) (q ++ [LF])) = snd (sw_run s (q ++ [LF])).
+Proof.
+  intros Hi Hl Hq Hna. unfold sw_run in *.
+  pose proof (lrun_line_idle sw_exec l s Hi Hl) as E1. rewrite E1 in *. cbn [fst snd] in *.
+  unfold line_outs in Hna. rewrite last_last in Hna.
+  assert (E : fst (sw_exec (ldev s) l) = ldev s).
+  { eapply sw_not_acked_unchanged; [apply surjective_pairing | exact Hna]. }
+  rewrite E. rewrite <- (lidle_msg s Hi). reflexivity.
+Qed.
